@@ -122,7 +122,9 @@ func Verif_C01_SetGet() {
 func Verif_C01_SetGetLiteral() {
 	s := verifServer()
 	k := vr.Tok("k")
-	lits := []string{"007", "1e3", "-0", "+5", "5.0", ".5", "0x10", "1_000", "inf", "", " 5", "5 ", "9223372036854775808", "1.0000000000000001"}
+	lits := []string{"007", "1e3", "-0", "+5", "5.0", ".5", "0x10", "1_000", "inf", "", " 5", "5 ", "9223372036854775808", "1.0000000000000001",
+		// integers that fit 64 bits but not the 53 significant bits of a double
+		"9007199254740993", "-9007199254740995", "1234567890123456789", "9223372036854775807", "-9223372036854775808"}
 	v := lits[vr.Choose("lit", len(lits))]
 	reply, err, panicked := verifRun(s, "SET", k, v)
 	vr.Assert(!panicked && err == nil && isOK(reply), "C01.setlit.reply")
@@ -131,6 +133,48 @@ func Verif_C01_SetGetLiteral() {
 	}
 	reply, err, panicked = verifRun(s, "GET", k)
 	vr.Assert(!panicked && err == nil && isStringReply(reply, v), "C01.setlit.byte_for_byte")
+	vr.Reach("end")
+}
+
+// Verif_C01_WideIntegers: integers wider than a double's 53 significant bits, written by SET or MSET, are
+// stored exactly: GET / MGET return the digits written and INCR / DECRBY count from the exact value.
+func Verif_C01_WideIntegers() {
+	s := verifServer()
+	k := vr.Tok("k")
+	n := []int{9007199254740993, -9007199254740995, 1234567890123456789, 9223372036854775806, -9223372036854775805, 4611686018427387905}[vr.Choose("wide", 6)]
+	v := strconv.Itoa(n)
+	var err error
+	var panicked bool
+	if vr.Choose("by_mset", 2) == 1 {
+		k2 := vr.Tok("k2")
+		vr.Assume(k2 != k)
+		_, err, panicked = verifRun(s, "MSET", k2, "x", k, v)
+	} else {
+		_, err, panicked = verifRun(s, "SET", k, v)
+	}
+	vr.Assert(!panicked && err == nil, "C01.wide.write")
+	if panicked || err != nil {
+		return
+	}
+	c01Holds(s, k, c01Val{kind: vInt, n: n, str: v}, "C01.wide.stored_exactly")
+	var reply []byte
+	want := n
+	switch vr.Choose("then", 3) {
+	case 0:
+		reply, err, panicked = verifRun(s, "GET", k)
+		vr.Assert(!panicked && err == nil && isStringReply(reply, v), "C01.wide.get_byte_for_byte")
+	case 1:
+		want = n + 1
+		reply, err, panicked = verifRun(s, "INCR", k)
+		vr.Assert(!panicked && err == nil && isIntReply(reply, want), "C01.wide.incr")
+	default:
+		want = n - 2
+		reply, err, panicked = verifRun(s, "DECRBY", k, "2")
+		vr.Assert(!panicked && err == nil && isIntReply(reply, want), "C01.wide.decrby")
+	}
+	if !panicked && err == nil {
+		c01Holds(s, k, c01Val{kind: vInt, n: want, str: strconv.Itoa(want)}, "C01.wide.post")
+	}
 	vr.Reach("end")
 }
 
